@@ -455,7 +455,10 @@ def run(tier, seed):
     ps = proof_side(prop)
     n = 240 if tier == 'quick' else 2400
     cases = make_cases(seed, n)
+    only = os.environ.get('LNVERIF_ONLY')
     model = run_model(d, cases)
+    if only:
+        model = {k: v for k, v in model.items() if str(k) == only}
     # only invocations the model accepts are compiled (the others are outside the macros' own grammar: they panic at expansion)
     accepted = [c for c in cases if model.get(c['id'], ('err', ''))[0] == 'ok']
     rejected = {}
